@@ -57,6 +57,21 @@ NulAt(b, p) == IF p > Len(b) THEN 0 ELSE IF b[p] = 0 THEN p ELSE NulAt(b, p + 1)
 Terminated(b, off) == off >= 0 /\ off < Len(b) /\ NulAt(b, off + 1) # 0
 CStrAt(b, off) == SubSeq(b, off + 1, NulAt(b, off + 1) - 1)
 
+\* ---- UTF-16LE strings inside a buffer (code units are read pairwise from the start position)
+\* end (1-based index of the terminator start) of the string starting at 1-based p, 0 if unterminated
+RECURSIVE Utf16End(_, _)
+Utf16End(d, p) ==
+  IF p + 1 > Len(d) THEN 0
+  ELSE IF d[p] = 0 /\ d[p + 1] = 0 THEN p
+  ELSE Utf16End(d, p + 2)
+UnitsOf(b) == [k \in 1..(Len(b) \div 2) |-> b[2 * k - 1] + 256 * b[2 * k]]
+\* every surrogate is half of a high-low pair
+HighSur(u) == u >= 55296 /\ u <= 56319
+LowSur(u) == u >= 56320 /\ u <= 57343
+WellFormedUtf16(u) ==
+  \A k \in 1..Len(u) :
+     (HighSur(u[k]) => (k < Len(u) /\ LowSur(u[k + 1]))) /\ (LowSur(u[k]) => (k > 1 /\ HighSur(u[k - 1])))
+
 \* ---- lexicographic order on byte strings (and on sequences of anything ordered by lt)
 RECURSIVE LexLessFrom(_, _, _)
 LexLessFrom(a, b, i) ==
